@@ -107,7 +107,7 @@ def gen_operand(rng, live, ncolors, depth=0, allow_boom=False):
         items = [gen_operand(rng, live, ncolors, depth + 1) for _ in range(rng.randint(0, 3))]
         if allow_boom and rng.random() < 0.3:
             items.insert(rng.randrange(len(items) + 1), {"boom": 1})
-        return {"l": items}
+        return {"l": items, "tuple": True} if rng.random() < 0.3 else {"l": items}
     if r < 0.96:
         return {"o": rng.choice([0, 42, -7, 3.5, None, True])}
     return {"s": gen_str(rng)}
@@ -280,7 +280,8 @@ class World:
         if "h" in o:
             return self.real.get(o["h"], "")
         if "l" in o:
-            return [self.real_operand(x) for x in o["l"]]
+            items = [self.real_operand(x) for x in o["l"]]
+            return tuple(items) if o.get("tuple") else items
         if "boom" in o:
             return Boom()
         if "o" in o:
